@@ -56,6 +56,10 @@ def configs(tier, seed):
         if tier == "thorough":
             out.append(C03._base(4, [[]], 2, [0], agg, weights="pair", ignore=False, side="ccube"))
             out.append(C03._base(4, [[]], 2, [1], agg, weights="pair", ignore=False, side="xcube"))
+            # fully real (not palette) weights: the only place where the isclose band of adjust_zeros can matter
+            for side in ("ccube", "xcube"):
+                for ignore in (False, True):
+                    out.append(C03._base(3, [[]], 2, [1], agg, weights="array", ignore=ignore, fact="nan", K=1, side=side, wreal=True))
     return out
 
 
@@ -78,6 +82,19 @@ def explore(cfg, eng, ctx):
     def path_():
         data = aggs.Data(eng, cfg)
         cur = {"fmt": fmts[0]}
+        if cfg.get("wreal") and data.wt is not None:
+            # known findings F16 / F16b: exclude exactly their regions (a cell whose valid weights sum to a non-zero
+            # value inside numpy.isclose's band); every other disagreement is still a violation
+            band = None
+            if "F16-isclose-band" in ctx.excl and agg == "mean" and side == "ccube":
+                band = "mean"
+            if "F16b-isclose-band-valid-count-plain-zero" in ctx.excl and agg == "valid_count" and ignore and "zero" in fmts:
+                band = "valid_count"
+            if band:
+                for cell in itertools.product(*[range(e) for e in C03.ishape_of(cfg)]):
+                    for k in range(data.K):
+                        _, _, wsum = data.cell_oracle(band, ignore, [() for _ in cfg["dims"]], cell, k)
+                        eng.assume(z3.Or(wsum <= 0, wsum > z3.RealVal("1.0000001e-8")))
 
         def builder(model):
             c = data.case(model)
